@@ -92,7 +92,7 @@ def gen_wl_exhaustive(rng, tier):
                 elif tier == "quick":
                     kind_sets = [[rng.choice(ESK) for _ in range(n)]]
                 else:
-                    kind_sets = [[rng.choice(ESK) for _ in range(n)] for _ in range(2 if n == 4 else 4)]
+                    kind_sets = [[rng.choice(ESK) for _ in range(n)] for _ in range(3 if n == 4 else 4)]
                 for kinds in kind_sets:
                     cases.append(_realize(n, timed, kinds, seq, rng))
                     cnt += 1
@@ -120,7 +120,7 @@ def gen_wl_exhaustive(rng, tier):
 def gen_wl_random(rng, tier):
     """enqueues interleaved with signals / broadcasts / clock steps, restarts, deadlines in the past / near / far"""
     cases = []
-    nrand = 220 if tier == "quick" else 4000
+    nrand = 260 if tier == "quick" else 6000
     for _ in range(nrand):
         n = rng.choice([1, 2, 3, 4, 5, 5, 6, 7, 8])
         specs = []
@@ -204,6 +204,10 @@ def gen_pw(rng, tier):
             for tail in tails:
                 for sc in scripts:
                     cases.append("PW %s %s %d %d ; %s" % (pk, op, S, tail, " , ".join(sc)))
+    # the pop context is honoured only by randws.c pop_wait
+    for hd in ("F w 20 1", "F t 20 1", "R t 20 1", "R w 20 1", "R w 20 0"):
+        for sc in (["i 2"], ["i 3", "o"], ["p", "p"]):
+            cases.append("PW %s ; %s" % (hd, " , ".join(sc)))
     # deadline already passed at the call (pop_timedwait with abstime in the past)
     for pk in "FR":
         cases.append("PW %s t -5 0 ; " % pk)
